@@ -6,7 +6,7 @@ slow-hash keys growing through several doublings (Find of every key, bit-exact r
 number of full-hash recomputations)."""
 import os
 
-GEN = ['gen_base.json', 'gen_open2n2.json', 'gen_o2set.json', 'gen_o2mp.json', 'gen_limp4.json', 'gen_limp4_add.json', 'gen_limp4_add16.json', 'gen_ptr32.json', 'gen_ptr48.json', 'gen_ptr64.json', 'gen_one.json']
+GEN = ['gen_base.json', 'gen_open2n2.json', 'gen_o2set.json', 'gen_o2mp.json', 'gen_limp4.json', 'gen_limp4_add.json', 'gen_limp4_add16.json', 'gen_ptr32.json', 'gen_ptr48.json', 'gen_ptr64.json', 'gen_one.json', 'gen_hs_find.json', 'gen_hs_findin.json']
 M64 = (1 << 64) - 1
 
 def qof(L): return (L + 6) // 8
@@ -284,6 +284,23 @@ def check_outputs(ctx, triples, lines):
     bad = []
     for (H, c, exp), out in zip(triples, lines):
         if exp is None:
+            # table-level cases: the real HashSet::Find (walking mBuckets and GetNextBuckets()) has to return every key that was
+            # inserted and not removed, and no removed key -- whatever growth / throwing hash functor happened in between
+            w = c.split(); pos = {'tbl': None, 'tbl2': 5, 'tp4': 4, 'tp4c': 6, 'tone': 3}.get(w[0], -1)
+            if pos != -1 and ' F:' in out:
+                nrem = int(w[pos]) if pos is not None else 0
+                rem = set(map(int, w[pos + 1:pos + 1 + nrem])) if pos is not None else set()
+                nkeys = len(w) - ((pos + 1 + nrem) if pos is not None else 3)
+                ent = [x for x in out.split(' F:', 1)[1].split(',') if x != '']
+                if len(ent) != nkeys:
+                    bad.append((c, out, 'HashSet::Find list has %d entries for %d keys' % (len(ent), nkeys)))
+                else:
+                    for k, x in enumerate(ent, 1):
+                        if (x.strip() == '-') != (k in rem):
+                            bad.append((c, out, 'HashSet::Find after growth: key %d (hash %s) is %s' % (k, w[len(w) - nkeys + k - 1],
+                                        'not found although stored' if x.strip() == '-' else 'found although removed'))); break
+                    else:
+                        if 'gens=2' in out: ctx.nontrivial.add(c)
             continue
         if exp == 'seq':
             # every `g` of a p4seq passed the true hash as the full getter: the answer must agree with it on the known bits
